@@ -54,6 +54,20 @@ def fn_bodies(src):
 
 ORD = {"Relaxed": "relaxed", "Acquire": "acquire", "Release": "release", "AcqRel": "acqRel", "SeqCst": "seqCst"}
 
+LOCS = {}
+
+def classify_loc(recv, fn):
+    """which atomic word a call site accesses, from the receiver expression (last field access wins)"""
+    best, pos = None, -1
+    for key, loc in ((".allocated", "allocated"), (".discarded", "discarded"), (".min_segment_size", "minseg"),
+                     (".sentinel", "sentinel"), ("refs()", "refs"), (".size_and_next", "node")):
+        k = recv.rfind(key)
+        if k > pos: best, pos = loc, k
+    if best is None:
+        # plain variables (`current`, `next`, `head`, `prev_node`, ...) are references to node words
+        best = "node"
+    return best
+
 def atomic_sites(src, with_lines=False):
     sites = []
     for name, body, start in fn_bodies(src):
@@ -71,9 +85,11 @@ def atomic_sites(src, with_lines=False):
             if not ords:
                 continue
             # which atomic: a short description of the receiver
+            recv_long = re.sub(r"\s+", "", body[max(0, m.start() - 160):m.start()]).split(";")[-1]
             recv = body[max(0, m.start() - 60):m.start()]
             recv = re.sub(r"\s+", "", recv).split(";")[-1].split("{")[-1].split("=")[-1].split("(")[-1]
             line = src.count("\n", 0, body_start + m.start()) + 1
+            LOCS[(name, idx)] = classify_loc(recv_long, name)
             if with_lines:
                 sites.append((name, idx, m.group(1), [ORD.get(o, "relaxed") for o in ords], recv[-40:], line))
             else:
@@ -152,11 +168,13 @@ def main():
                  "inductive Ord where", "  | relaxed | acquire | release | acqRel | seqCst",
                  "  deriving Repr, DecidableEq", "",
                  "structure Site where", "  fn : String", "  idx : Nat", "  kind : String", "  ords : List Ord",
+                 "  /-- the atomic word accessed: allocated | discarded | minseg | sentinel | refs | node -/",
+                 "  loc : String",
                  "  deriving Repr, DecidableEq", "", "def sites : List Site := ["]
         for k, (fn, idx, kind, ords, recv) in enumerate(sites):
             o = ", ".join("." + x for x in ords)
             comma = "," if k + 1 < len(sites) else ""
-            lines.append(f'  ⟨"{fn}", {idx}, "{kind}", [{o}]⟩{comma}  -- {recv}')
+            lines.append(f'  ⟨"{fn}", {idx}, "{kind}", [{o}], "{LOCS.get((fn, idx), "node")}"⟩{comma}  -- {recv}')
         lines += ["]", "", "end Rarena.Gen", ""]
         if write_if_changed(os.path.join(GEN, "Orderings.lean"), "\n".join(lines)):
             info["changed"].append("Orderings")
